@@ -580,6 +580,10 @@ func racePass(prop string, reps int) int {
 		} else if only != "" && sc.ID != only {
 			continue
 		}
+		if sc.ViaHandle && !rt.ChanOps {
+			fmt.Fprintf(os.Stderr, "VERIF-SCENARIO-DONE %s\n", sc.ID)
+			continue
+		}
 		if sc.ViaHandle {
 			raceHandle(sc, reps)
 			fmt.Fprintf(os.Stderr, "VERIF-SCENARIO-DONE %s\n", sc.ID)
@@ -898,11 +902,16 @@ func main() {
 	rep := ev.NewReport(prop, "exploration")
 	p := &pool.Pool{Handler: "concmc", N: 16, Timeout: 60 * time.Second, MemMB: 4096}
 	var tasks [][]byte
+	handleNotRun := 0
 	for _, sc := range allScenarios() {
 		if !scMatches(sc, prop) {
 			continue
 		}
 		if sc.RaceOnly {
+			continue
+		}
+		if sc.ViaHandle && !rt.ChanOps {
+			handleNotRun++
 			continue
 		}
 		if sc.ViaHandle {
@@ -915,6 +924,9 @@ func main() {
 		}
 		b, _ := json.Marshal(task{Mode: "explore", Scenario: sc.ID, Prop: prop, Bound: bound, Max: maxSched})
 		tasks = append(tasks, b)
+	}
+	if handleNotRun > 0 {
+		fmt.Fprintf(os.Stderr, "concmc: %d connection-level scenarios not run: %s\n", handleNotRun, rt.ChanOpsNote)
 	}
 	auditShards := 0
 	if prop == "C13" {
@@ -1025,7 +1037,8 @@ func main() {
 		"distinct_nontrivial":   preemptive + auditLocked,
 		"rule":                  "every schedule with at most the preemption bound (a schedule point before every lock / rwlock announce / select / invocation / response) of each 2-3 thread scenario on colliding keys; oracle: brute-force linearizability against the reference keyspace incl. the final dump, structural invariants, conservation, deadlock, panic. Non-trivial = schedules with >= 1 preemption (+ audited commands that took a lock). Separate free-running -race pass over the same bodies",
 		"samples":               samples,
-		"exhaustive":            truncated == 0,
+		"exhaustive":            truncated == 0 && handleNotRun == 0,
+		"connection_level_scenarios_not_run": map[string]interface{}{"count": handleNotRun, "why": rt.ChanOpsNote},
 		"scenarios":             scen,
 		"scenarios_truncated":   truncated,
 		"preemption_bound":      bound,
